@@ -1159,6 +1159,13 @@ func (e *Entry) Augment(addErrors bool) (processed, skipped int) {
 	var unapplied []*Entry
 	for _, a := range e.Augments {
 		target := a.Find(a.Name)
+		if verifEnabled {
+			if target == nil {
+				verifEmit("augment.skip", "augment", Source(a.Node), "path", a.Name, "final", fmt.Sprint(addErrors))
+			} else {
+				verifEmit("augment.found", "augment", Source(a.Node), "path", a.Name, "target", target.Path(), "kind", target.Kind.String())
+			}
+		}
 		if target == nil {
 			if addErrors {
 				e.errorf("%s: augment %s not found", Source(a.Node), a.Name)
@@ -1179,6 +1186,9 @@ func (e *Entry) Augment(addErrors bool) (processed, skipped int) {
 		// augment since the nodes have this namespace even though they
 		// are merged into another entry.
 		processed++
+		if verifEnabled {
+			verifEmit("augment.merge", "augment", Source(a.Node), "path", a.Name, "target", target.Path())
+		}
 		target.merge(nil, a.Namespace(), a)
 		target.Augmented = append(target.Augmented, a.shallowDup())
 	}
@@ -1201,6 +1211,9 @@ func (e *Entry) ApplyDeviate(deviateOpts ...DeviateOpt) []error {
 		for _, od := range d.orderedDeviates() {
 			dt := od.dt
 			for _, devSpec := range od.dv {
+				if verifEnabled {
+					verifEmit("deviate.apply", "path", d.DeviatedPath, "kind", dt.String(), "deviate", Source(devSpec.Node))
+				}
 				switch dt {
 				case DeviationAdd, DeviationReplace:
 					if devSpec.Config != TSUnset {
